@@ -93,7 +93,7 @@ func RunReplay(t *testing.T, table map[string]func()) {
 		}
 		fails, trace, known := Results()
 		out.Fails, out.Trace, out.Known = fails, trace, known
-		if (out.Status == "pass" || out.Status == "diverged") && len(fails) > 0 {
+		if (out.Status == "pass" || out.Status == "diverged" || out.Status == "deadlock") && len(fails) > 0 {
 			// an Assume(false) right after a failed Assert is the harness idiom for "cut the run here"
 			out.Status = "assert"
 		}
